@@ -706,6 +706,21 @@ def run (st : St) : List Op → St
   | [] => st
   | o :: os => run (step st o).1 os
 
+/-! ### a failing transaction Commit
+
+The write handlers of the endpoints run inside a storage transaction; when its Commit fails (a conflict detected at
+commit time, loss of leadership, a full disk) the writes are discarded and — since the repair F76 — the policy object the
+handler changed is evicted from the lock manager's cache, so the next request loads the stored, unchanged policy: the
+request has no effect at all. -/
+
+/-- one request; `commitFails` = its transaction's Commit is refused -/
+def stepCF (st : St) (commitFails : Bool) (op : Op) : St × Out :=
+  if commitFails then (st, .err "commit") else step st op
+
+def runCF (st : St) : List (Bool × Op) → St
+  | [] => st
+  | (f, o) :: os => runCF (stepCF st f o).1 os
+
 /-! ### batch requests (`batch_input` of encrypt / decrypt / rewrap) -/
 
 /-- the derivation-context field of a batchable request -/
